@@ -147,6 +147,12 @@ static int run_standalone(const char *path) {
             fprintf(stderr, "  %s\n", vm.error_msg);
         }
         exit_code = 1;
+    } else {
+        /* main's integer result is the process exit status (as in nano_virt --run) */
+        NanoValue main_result = vm_get_result(&vm);
+        if (main_result.tag == TAG_INT) {
+            exit_code = (int)main_result.as.i64;
+        }
     }
 
     /* Stop co-process if it was launched */
